@@ -182,6 +182,8 @@ def _do(op):
         return show_timex(d.TimexHelpers.timex_time_add(d.Timex(op[1]), d.Timex(op[2])))
     if k == 'durvalue':
         return 'S' + cps(d.TimexValue.duration_value(d.Timex(op[1])))
+    if k == 'ctorseq':  # several constructions formatted one after the other IN THIS ORDER in one process
+        return [d.Timex(**dict(kw)).timex_value() for kw in op[1]]
     if k == 'ctor':  # regex-independent direction: fields -> Timex(...) -> format -> parse back
         import decimal
         kw = {}
